@@ -44,6 +44,9 @@ type Op struct {
 	J          int    `json:"j,omitempty"`
 	WithHeader bool   `json:"with_header,omitempty"`
 	Corrupt    string `json:"corrupt,omitempty"`
+	// proof with a header: 0 = header only; 1 = also the hash of that header; 2 = also the hash of the
+	// block the proof was built for (a known block: disagrees with the header when that was replaced)
+	Both int `json:"both,omitempty"`
 }
 
 type Case struct {
@@ -383,6 +386,12 @@ func (r *runner) proofOp(c *Case, op Op) (obs, int, bool) {
 	if op.WithHeader {
 		p.BlockHeader = hdr
 		p.BlockHash = nil
+		switch op.Both { // the supplied header decides; a hash beside it must not
+		case 1:
+			p.BlockHash = hdr.BlockHash()
+		case 2:
+			p.BlockHash = r.hdrs[op.I].BlockHash()
+		}
 	} else {
 		p.BlockHeader = nil
 		p.BlockHash = hdr.BlockHash()
@@ -1123,7 +1132,11 @@ func genCase(r *coqfmt.Rand, id int, pf profile, size int) Case {
 		}
 		for k := 0; k < 3 && r.Intn(100) < pf.proofs; k++ {
 			cor := []string{"", "", "", "txid", "path", "index_in", "index_out", "header", "unknown"}[r.Intn(9)]
-			c.Ops = append(c.Ops, Op{K: "proof", I: 1 + r.Intn(i), J: r.Intn(60), WithHeader: r.Chance(1, 2), Corrupt: cor})
+			pop := Op{K: "proof", I: 1 + r.Intn(i), J: r.Intn(60), WithHeader: r.Chance(1, 2), Corrupt: cor}
+			if pop.WithHeader {
+				pop.Both = r.Intn(3)
+			}
+			c.Ops = append(c.Ops, pop)
 		}
 		if r.Intn(100) < pf.locators {
 			c.Ops = append(c.Ops, Op{K: "locator", D: []int{1, 3, 10, 50}[r.Intn(4)]})
